@@ -1,6 +1,9 @@
 import O4.Lemmas.Obfs4Shaping
 import O4.Model.ProbDist
 import O4.Generated.Facts.Probdist
+import O4.Generated.Facts.Obfs4
+import O4.Generated.Facts.Drbg
+import O4.Generated.Facts.Csrand
 /-!
 # C09 — obfs4 traffic shaping follows the seeded distributions, never crashes
 
@@ -560,5 +563,23 @@ example :
     o.status = .starved ∧ o.frames = [22, 1448, 29, 1448, 22, 1448, 22] ∧
       o.writes.all (fun w => w.size == 10) = true := by
   decide +kernel
+
+
+/-- **structural fact, regenerated from the Go source on every run (go/ast)**: every package-level
+    variable (file-scope `var`) of the packages this property's mechanisms live in
+    (transports/obfs4, common/probdist, common/drbg, common/csrand) is one of the names below — error values, fixed byte strings,
+    flags and function hooks that the code only reads after initialisation.  The models treat all
+    other state as owned by one connection / one object; a NEW package-level variable (a cache, a
+    pool, a scratch buffer, a pre-keyed hash shared "to save allocations") is how such state comes
+    to be shared between connections and goroutines, which compiles, passes the tests and typically
+    needs true parallelism or a multi-connection history to misbehave.  Adding one breaks this
+    theorem; the concurrent / multi-connection families of the harness then search for the failing
+    schedule. -/
+theorem no_new_package_level_state :
+    O4.Facts.Obfs4.pkg_vars ⊆ ["ErrInvalidHandshake", "ErrMarkNotFoundYet", "ErrNtorFailed", "ErrReplayedHandshake", "biasedDist", "zeroPadBytes"] ∧
+    O4.Facts.Probdist.pkg_vars ⊆ [] ∧
+    O4.Facts.Drbg.pkg_vars ⊆ [] ∧
+    O4.Facts.Csrand.pkg_vars ⊆ ["Rand", "Reader", "csRandSourceInstance"] := by
+  decide
 
 end C09
